@@ -127,6 +127,8 @@ def quiescent_findings(h):
 
 ORACLES = [CP.o_no_escape, o_allowed_steps, o_collision_answers, CP.o_sad_equals_tracked]
 CONF = {'dpd': 50, 'ike_lifetime': 400, 'child_lifetime': 1000}
+# the initiator prefers a DH group the responder does not have: IKE_SA_INIT and every IKE_SA rekey go through an INVALID_KE_PAYLOAD retry
+CONF_KE = {'dpd': 50, 'ike_lifetime': 400, 'child_lifetime': 1000, 'dh': ['20', '19'], 'dh_b': ['19']}
 
 
 def apply_trigger(h, ep, trig):
@@ -159,9 +161,10 @@ def apply_trigger(h, ep, trig):
         h.op('tick', 1)
 
 
-def run_trace(ctx, res, seed, trace, lossy=False, tracer=False):
+def run_trace(ctx, res, seed, trace, lossy=False, tracer=False, conf=None):
     """trace: list of ('t', endpoint, trigger) | ('d', k) deliver the k-th in-flight datagram | ('x', k) drop | ('u', k) duplicate"""
-    with CP.History(seed, trace=tracer and ctx.driver is not None, **CONF) as h:
+    conf = conf or CONF
+    with CP.History(seed, trace=tracer and ctx.driver is not None, **conf) as h:
         h.oracles = list(ORACLES)
         if not h.establish('A'):
             return None
@@ -177,12 +180,21 @@ def run_trace(ctx, res, seed, trace, lossy=False, tracer=False):
             h.settle(120)
             for key, what in quiescent_findings(h):
                 h.findings.append((key, what, len(h.ops) - 1))
+        if not h.findings:
+            # agreement is more than equal SPIs: every IKE_SA the two ends hold must still carry an exchange in either direction
+            for ep in (h.w.A, h.w.B):
+                for sa in [x for x in ep.sas() if int(x.state) == 10]:
+                    sa.start_dpd_at = h.w.now - 1
+                h.op('tick', 0)
+                h.settle(60)
+            for key, what in quiescent_findings(h):
+                h.findings.append((key + ':after-liveness-probe', 'after a liveness check from each end on every IKE_SA: ' + what, len(h.ops) - 1))
         res.evaluations += len(h.ops)
         res.nontrivial.add(tuple(trace))
         for v in h.visited:
             res.count('state:%s/%s/%s' % (v[0], CP.ST.get(v[1], v[1]), 'I' if v[2] else 'R'))
         for key, what, at in h.findings[:2]:
-            res.fail(key, what, {'seed': seed, 'conf': CONF, 'trace': [list(map(str, s)) for s in trace], 'ops': S.ser_ops(h.ops[:at + 1])})
+            res.fail(key, what, {'seed': seed, 'conf': conf, 'trace': [list(map(str, s)) for s in trace], 'ops': S.ser_ops(h.ops[:at + 1])})
         if h.tr is not None:
             h.tr.close()
             for line, want, out, c in h.tr.check(ctx.driver)[:2]:
@@ -209,6 +221,18 @@ def run(ctx):
             n_exh += 1
             if len(res.failures) >= 40:
                 break
+    # the same with an INVALID_KE_PAYLOAD retry in every IKE_SA negotiation (depth 2, and the traces that finish a rekey first)
+    for d in range(1, 3):
+        for trace in itertools.product(alphabet, repeat=d):
+            if trace[0][0] == 'd':
+                continue
+            run_trace(ctx, res, 2468, list(trace), conf=CONF_KE)
+            n_exh += 1
+    for e in 'AB':
+        for t2 in TRIGGERS:
+            for e2 in 'AB':
+                run_trace(ctx, res, 1357, [('t', e, 'rekey-ike')] + [('d', 0)] * 8 + [('t', e2, t2)], conf=CONF_KE)
+                n_exh += 1
     res.extra['exhaustive_depth'] = depth
     res.extra['exhaustive_traces'] = n_exh
     res.extra['traces_validated_against_impl'] = n_exh
@@ -226,7 +250,7 @@ def run(ctx):
                 trace.append(('x', rng.randrange(3)))
             else:
                 trace.append(('u', rng.randrange(3)))
-        run_trace(ctx, res, rng.randrange(1 << 30), trace, tracer=(k % 10 == 0))
+        run_trace(ctx, res, rng.randrange(1 << 30), trace, tracer=(k % 10 == 0), conf=CONF_KE if k % 4 == 3 else CONF)
     res.extra['random_walks'] = walks
     res.sample({'trace': [list(map(str, s)) for s in trace]})
     # an authentic peer that says unusual things: every handler branch the honest schedules do not take is replayed on the model
